@@ -279,8 +279,8 @@ func concWorker(req json.RawMessage) interface{} {
 		select {
 		case <-fin:
 			close(stop)
-		case <-time.After(45 * time.Second):
-			return c17Obs{Err: "schema uploads and reads did not return within 45 s (reader/writer deadlock)", Acks: ob.Acks}
+		case <-time.After(time.Duration(45+in.SchemaRace/2) * time.Second): // 4 x SchemaRace uploads under the race detector; a deadlock never returns
+			return c17Obs{Err: fmt.Sprintf("schema uploads and reads did not return within %d s (reader/writer deadlock)", 45+in.SchemaRace/2), Acks: ob.Acks}
 		}
 		// the server must still answer
 		okc := make(chan struct{})
